@@ -276,7 +276,8 @@ def _topo_wrap(run, P):
     run.ob("C05.wrap", f, skips[0] if skips else lp, ok and len(skips) <= 1,
            construct="the only skip is 'if isinstance(<statement>, Nop): continue'",
            why="any other skip drops a statement from the generated code")
-    last = lp.body[-1]
+    appends = [s_ for s_ in lp.body if first("V_blk.append(loop_to_ast_node(V_s))", s_)[0] is not None]
+    last = appends[-1] if appends else lp.body[-1]
     m_ = first("V_blk.append(loop_to_ast_node(V_s))", last)
     ok = m_[0] is not None and isinstance(lp.target, ast.Name) and has(
         f"V_s = V_map[{lp.target.id}]", lp, {"V_s": m_[1]["V_s"]} if m_[1] else None)
@@ -415,7 +416,8 @@ def _cond(run, P):
            why="nothing runs when the guard is false")
     test = [n for n in f.node.body if isinstance(n, ast.If)]
     ok = bool(test) and norm(test[0].test) == "statement.condition is not True" \
-        and test[0].orelse and "statement_to_ast(statement)" in ast.unparse(test[0].orelse[0])
+        and test[0].orelse and any("statement_to_ast(statement)" in ast.unparse(s_)
+                                   and isinstance(s_, ast.Return) for s_ in test[0].orelse)
     run.ob("C05.cond", f, test[0] if test else f.node, ok,
            construct="unguarded statements are wrapped directly",
            why="condition True means unconditional")
@@ -423,6 +425,8 @@ def _cond(run, P):
 
 def _walker(run, P):
     f = P.func("dagrt.codegen.codegen_base.StructuredCodeGenerator.lower_node")
+    from .util import core
+    uses_self = lambda s_: any(isinstance(x, ast.Name) and x.id == "self" for x in ast.walk(s_))
     branches = {}
     n = f.node.body[-1] if f.node.body else None
     node = None
@@ -433,7 +437,8 @@ def _walker(run, P):
         t = node.test
         if isinstance(t, ast.Call) and dotted(t.func) == "isinstance":
             branches[dotted(t.args[1])] = node.body
-        nxt = node.orelse
+        nxt = core(node.orelse, lambda s_: isinstance(s_, ast.If)) \
+            if any(isinstance(s_, ast.If) for s_ in node.orelse) else node.orelse
         node = nxt[0] if len(nxt) == 1 and isinstance(nxt[0], ast.If) else None
         last_else = nxt
     expected = {
@@ -448,16 +453,18 @@ def _walker(run, P):
     }
     for cls, seq in expected.items():
         body = branches.get(cls)
-        got = [ast.unparse(s) for s in body] if body else None
+        got = [ast.unparse(s) for s in core(body, uses_self)] if body else None
         run.ob("C05.walker", f, body[0] if body else f.node, got == seq,
                construct=f"{cls}: {got}",
                why=f"emission order for {cls} must be {seq}")
     body = branches.get("Block")
     ok = False
+    body = core(body, uses_self) if body else body
     if body and len(body) == 1 and isinstance(body[0], ast.For):
         lp = body[0]
-        ok = dotted(lp.iter) == "node.children" and len(lp.body) == 1 \
-            and ast.unparse(lp.body[0]) == f"self.lower_node({lp.target.id})"
+        lb = core(lp.body, uses_self)
+        ok = dotted(lp.iter) == "node.children" and len(lb) == 1 \
+            and ast.unparse(lb[0]) == f"self.lower_node({lp.target.id})"
     run.ob("C05.walker", f, body[0] if body else f.node, ok,
            construct="Block: children lowered in tuple order",
            why="statement order")
@@ -469,7 +476,7 @@ def _walker(run, P):
            why="a node class without a branch raises 'Unrecognized node type'")
     la = P.func("dagrt.codegen.codegen_base.StructuredCodeGenerator.lower_ast")
     from .util import src_of
-    src = src_of(la.node.body)
+    src = src_of(core(la.node.body, uses_self))
     run.ob("C05.walker", la, la.node, src == ["self.lower_node(ast)", "self.emit_return()"],
            construct=f"lower_ast: {src}",
            why="the phase body is followed by the return/exit emission")
